@@ -87,3 +87,15 @@ package party
 //@   modifies nothing
 //@   allocates
 //@   ensures result != nil && fresh(result) && result.Points == points
+
+// The encoding of an identifier list is self-delimiting (C19, C09): the number of identifiers, then every identifier
+// preceded by its own length -- so two different lists never give the same byte string.
+//@ spec fn wlast(Int) Int
+//@ rawaxiom[wlast] (forall ((a Int) (b Int)) (! (= (wlast (wcat a b)) b) :pattern ((wcat a b))))
+//@ func (IDSlice).WriteTo
+//@   nopanic[C05]
+//@   use wlast
+//@   requires w != nil
+//@   assert_at[C19,C09] Write "n, err = w.Write([]byte(id))": len(id) < 4294967296 ==> wlast(wlog(w)) == be32(len(id))
+//@   ensures[C19,C09] result1 == nil ==> callcount(Write) == len(partyIDs) + len(partyIDs) + 1
+//@   loop 1: invariant callcount(Write) == 2*(rangeindex + 1) + 1 && rangeindex + 1 <= len(partyIDs)
